@@ -265,6 +265,7 @@ Proof. intros [_ [Hm _]]. unfold tab_ok. simpl. split; [reflexivity|split; [exac
 Section Roundtrip.
 Variable hd : bytes -> hres.
 Hypothesis Hhd : hd_ok hd.
+Variable ff : bool.      (* Decoder.firstField; irrelevant for header field representations *)
 
 Definition wf_f (f : field) : Prop :=
   wf_bytes (fname f) = true /\ wf_bytes (fvalue f) = true /\ blen (fname f) < 2 ^ 61 /\ blen (fvalue f) < 2 ^ 61.
@@ -272,7 +273,7 @@ Definition wf_f (f : field) : Prop :=
 Lemma parse_repr_literal t p b tl n it :
   p = b :: tl ->
   ((64 <= b < 128 /\ n = 6 /\ it = 0) \/ (0 <= b < 16 /\ n = 4 /\ it = 1) \/ (16 <= b < 32 /\ n = 4 /\ it = 2)) ->
-  parse_repr hd t p = parse_literal hd t n it p.
+  parse_repr hd ff t p = parse_literal hd t n it p.
 Proof.
   intros -> H. unfold parse_repr.
   destruct H as [[Hb [-> ->]]|[[Hb [-> ->]]|[Hb [-> ->]]]].
@@ -312,7 +313,7 @@ Definition lit_result (t : dyntab) (it : Z) (fn fv rest : bytes) : rd (dyntab * 
 
 Lemma parse_new_name t tb n it fn fv rest :
   lit_triple tb n it -> wf_bytes fn = true -> wf_bytes fv = true -> blen fn < 2 ^ 61 -> blen fv < 2 ^ 61 ->
-  parse_repr hd t ((tb :: append_hpack_string fn ++ append_hpack_string fv) ++ rest) = lit_result t it fn fv rest.
+  parse_repr hd ff t ((tb :: append_hpack_string fn ++ append_hpack_string fv) ++ rest) = lit_result t it fn fv rest.
 Proof.
   intros Htr Hwn Hwv Hln Hlv. apply lt61_62 in Hln. apply lt61_62 in Hlv.
   rewrite <- app_comm_cons, <- app_assoc.
@@ -330,7 +331,7 @@ Qed.
 Lemma parse_idx_name t tb n it idx fn x fv rest :
   lit_triple tb n it -> 0 < idx < 2 ^ 62 -> dec_at t idx = Some (fn, x) ->
   wf_bytes fv = true -> blen fv < 2 ^ 61 ->
-  parse_repr hd t ((or_first tb (append_varint n idx) ++ append_hpack_string fv) ++ rest) = lit_result t it fn fv rest.
+  parse_repr hd ff t ((or_first tb (append_varint n idx) ++ append_hpack_string fv) ++ rest) = lit_result t it fn fv rest.
 Proof.
   intros Htr Hidx Hat Hwv Hlv. apply lt61_62 in Hlv.
   assert (1 <= n <= 7 /\ 0 <= tb /\ tb mod 2 ^ n = 0 /\ tb + 2 ^ n = (if it =? 0 then 128 else if it =? 1 then 16 else 32)) as [Hn [Htb [Hmod Hsum]]].
@@ -347,7 +348,7 @@ Qed.
 
 Lemma parse_indexed_ok t idx fn fv rest :
   0 <= idx < 2 ^ 62 -> dec_at t idx = Some (fn, fv) ->
-  parse_repr hd t (append_indexed idx ++ rest) = ROk (t, Some (mkF fn fv false)) rest.
+  parse_repr hd ff t (append_indexed idx ++ rest) = ROk (t, Some (mkF fn fv false)) rest.
 Proof.
   intros Hidx Hat. unfold append_indexed.
   destruct (varint_enc 7 128 idx rest ltac:(lia) Hidx ltac:(lia) eq_refl) as [b0 [tl [Hb [Hr Hrd]]]].
@@ -417,7 +418,7 @@ Lemma field_roundtrip_literal e fn fv fs e' body t idx :
         | None => None
         end
    else Some (e, body)) = Some (e', body) ->
-  body <> [] /\ exists t', (forall rest, parse_repr hd t (body ++ rest) = ROk (t', Some (mkF fn fv fs)) rest) /\ fr_post e e' t t'.
+  body <> [] /\ exists t', (forall rest, parse_repr hd ff t (body ++ rest) = ROk (t', Some (mkF fn fv fs)) rest) /\ fr_post e e' t t'.
 Proof.
   intros Hwn Hwv Hln Hlv Hokt Hoke Hents Hmax Hidx2 Hnm He. cbv zeta in He.
   remember (negb fs && (fsize (mkF fn fv fs) <=? dmax (edt e))) as indexing eqn:Hidef.
@@ -451,7 +452,7 @@ Lemma field_roundtrip_literal' e f e' body t idx :
         | None => None
         end
    else Some (e, body)) = Some (e', body) ->
-  body <> [] /\ exists t', (forall rest, parse_repr hd t (body ++ rest) = ROk (t', Some f) rest) /\ fr_post e e' t t'.
+  body <> [] /\ exists t', (forall rest, parse_repr hd ff t (body ++ rest) = ROk (t', Some f) rest) /\ fr_post e e' t t'.
 Proof.
   intros [Hwn [Hwv [Hln Hlv]]]. destruct f as [fn fv fs]. cbn [fname fvalue fsens] in *.
   intros. eapply field_roundtrip_literal; eassumption.
@@ -470,7 +471,7 @@ Lemma field_roundtrip_core e f e' body t idx nvm :
       | None => None
       end
     else Some (e, body)) = Some (e', body) ->
-  body <> [] /\ exists t', (forall rest, parse_repr hd t (body ++ rest) = ROk (t', Some f) rest) /\ fr_post e e' t t'.
+  body <> [] /\ exists t', (forall rest, parse_repr hd ff t (body ++ rest) = ROk (t', Some f) rest) /\ fr_post e e' t t'.
 Proof.
   intros Hwf Hokt Hoke Hents Hmax Hbig Est He.
   destruct (search_table_spec _ _ _ _ Est) as [Hidx [Hm Hnm]].
@@ -506,7 +507,7 @@ Qed.
 Lemma field_roundtrip e f e' body t :
   wf_f f -> tab_ok t -> tab_ok (edt e) -> tab_eq (edt e) t -> dmax t <= 2 ^ 32 ->
   enc_field e f = Some (e', body) ->
-  body <> [] /\ exists t', (forall rest, parse_repr hd t (body ++ rest) = ROk (t', Some f) rest) /\ fr_post e e' t t'.
+  body <> [] /\ exists t', (forall rest, parse_repr hd ff t (body ++ rest) = ROk (t', Some f) rest) /\ fr_post e e' t t'.
 Proof.
   intros Hwf Hokt Hoke [Hents Hmax] Hbig He.
   rewrite (enc_field_unfold e f t Hents) in He.
@@ -521,7 +522,7 @@ Variable hd : bytes -> hres.
 Hypothesis Hhd : hd_ok hd.
 
 Lemma parse_size_update_ok t v rest : tab_ok t -> 0 <= v <= dallowed t -> v < 2 ^ 62 ->
-  parse_repr hd t (append_table_size v ++ rest)
+  parse_repr hd true t (append_table_size v ++ rest)
   = ROk (mkDT (fit (ents t) v) (tsum (fit (ents t) v)) v (dallowed t), None) rest.
 Proof.
   intros Hok Hv Hv2. unfold append_table_size.
@@ -530,47 +531,54 @@ Proof.
   change (32 + 2 ^ 5) with 64 in Hr.
   unfold parse_repr. assert (128 <=? b0 = false) as -> by lia. assert (64 <=? b0 = false) as -> by lia.
   assert (b0 <? 16 = false) as -> by lia. assert (b0 <? 32 = false) as -> by lia.
-  unfold parse_size_update. rewrite Hrd. assert (v >? dallowed t = false) as -> by lia.
+  unfold parse_size_update. cbn [negb]. rewrite Hrd. assert (v >? dallowed t = false) as -> by lia.
   rewrite (dt_set_max_ok t v Hok) by lia. reflexivity.
 Qed.
 
 Definition ocons (o : option field) (l : list field) : list field := match o with Some x => x :: l | None => l end.
-Inductive Dec : dyntab -> bytes -> list field -> dyntab -> Prop :=
-| Dec_nil t : Dec t [] [] t
-| Dec_step t r t1 o rest0 fs t' :
-    r <> [] -> (forall rest, parse_repr hd t (r ++ rest) = ROk (t1, o) rest) -> Dec t1 rest0 fs t' ->
-    Dec t (r ++ rest0) (ocons o fs) t'.
+Inductive Dec : bool -> dyntab -> bytes -> list field -> bool -> dyntab -> Prop :=
+| Dec_nil ff t : Dec ff t [] [] ff t
+| Dec_step ff t r t1 o rest0 fs ff' t' :
+    r <> [] -> (forall rest, parse_repr hd ff t (r ++ rest) = ROk (t1, o) rest) ->
+    Dec (next_first ff o) t1 rest0 fs ff' t' ->
+    Dec ff t (r ++ rest0) (ocons o fs) ff' t'.
 
-Lemma Dec_app t a fa t1 : Dec t a fa t1 -> forall b fb t2, Dec t1 b fb t2 -> Dec t (a ++ b) (fa ++ fb) t2.
+Lemma Dec_app ff t a fa ff1 t1 : Dec ff t a fa ff1 t1 -> forall b fb ff2 t2, Dec ff1 t1 b fb ff2 t2 -> Dec ff t (a ++ b) (fa ++ fb) ff2 t2.
 Proof.
-  induction 1 as [t|t r t1 o rest0 fs t' Hr Hp Hd IH]; intros b fb t2 H2; [exact H2|].
+  induction 1 as [ff t|ff t r t1 o rest0 fs ff' t' Hr Hp Hd IH]; intros b fb ff2 t2 H2; [exact H2|].
   rewrite <- app_assoc. replace (ocons o fs ++ fb) with (ocons o (fs ++ fb)) by (destruct o; reflexivity).
   eapply Dec_step; [exact Hr|exact Hp|]. apply IH. exact H2.
 Qed.
-Lemma Dec_one t r t1 o : r <> [] -> (forall rest, parse_repr hd t (r ++ rest) = ROk (t1, o) rest) -> Dec t r (ocons o []) t1.
+Lemma Dec_one ff t r t1 o : r <> [] -> (forall rest, parse_repr hd ff t (r ++ rest) = ROk (t1, o) rest) ->
+  Dec ff t r (ocons o []) (next_first ff o) t1.
 Proof. intros Hr Hp. rewrite <- (app_nil_r r). eapply Dec_step; [exact Hr|exact Hp|apply Dec_nil]. Qed.
 
-Lemma Dec_parse_loop t blk fs t' : Dec t blk fs t' -> forall fuel acc, (length blk < fuel)%nat ->
-  parse_loop hd fuel t blk acc = (mkD t' [], rev fs ++ acc, 0).
+Lemma Dec_parse_loop ff t blk fs ff' t' : Dec ff t blk fs ff' t' -> forall fuel acc, (length blk < fuel)%nat ->
+  parse_loop hd fuel ff t blk acc = (mkD t' [] ff', rev fs ++ acc, 0).
 Proof.
-  induction 1 as [t|t r t1 o rest0 fs t' Hr Hp Hd IH]; intros fuel acc Hf.
+  induction 1 as [ff t|ff t r t1 o rest0 fs ff' t' Hr Hp Hd IH]; intros fuel acc Hf.
   - destruct fuel; reflexivity.
   - destruct r as [|b r']; [congruence|]. destruct fuel as [|f]; [simpl in Hf; lia|].
     rewrite <- app_comm_cons. cbn [parse_loop]. rewrite app_comm_cons, Hp.
     rewrite IH by (simpl in Hf; rewrite app_length in Hf; lia).
     destruct o; cbn [ocons rev]; [rewrite <- app_assoc|]; reflexivity.
 Qed.
-Lemma Dec_nil_inv t fs t' : Dec t [] fs t' -> fs = [] /\ t' = t.
+Lemma Dec_nil_inv ff t fs ff' t' : Dec ff t [] fs ff' t' -> fs = [] /\ t' = t /\ ff' = ff.
 Proof.
-  intros H. inversion H as [|? r ? ? rest0 ? ? Hr _ _ Heq]; subst; [auto|].
+  intros H. inversion H as [|? ? r ? ? rest0 ? ? ? Hr _ _ Heq]; subst; [auto|].
   destruct r; [congruence|discriminate].
 Qed.
-Lemma Dec_run t blk fs t' : Dec t blk fs t' -> dec_run hd (mkD t []) [blk] [] = (mkD t' [], fs, 0).
+Lemma Dec_run ff t blk fs ff' t' : Dec ff t blk fs ff' t' -> dec_run hd (mkD t [] ff) [blk] [] = (mkD t' [] true, fs, 0).
 Proof.
   intros H. cbn [dec_run]. unfold dec_write. destruct blk as [|b blk'].
-  - destruct (Dec_nil_inv _ _ _ H) as [-> ->]. reflexivity.
-  - cbn [dsave app]. rewrite (Dec_parse_loop _ _ _ _ H) by (simpl; lia).
+  - destruct (Dec_nil_inv _ _ _ _ _ H) as [-> [-> ->]]. reflexivity.
+  - cbn [dsave ddt dfirst app]. rewrite (Dec_parse_loop _ _ _ _ _ _ H) by (simpl; lia).
     rewrite app_nil_r, rev_involutive. reflexivity.
+Qed.
+Lemma Dec_first ff t blk fs ff' t' : Dec ff t blk fs ff' t' -> ff' = match fs with [] => ff | _ => false end.
+Proof.
+  induction 1 as [ff t|ff t r t1 o rest0 fs ff' t' Hr Hp Hd IH]; [reflexivity|].
+  rewrite IH. destruct o; cbn [ocons next_first]; [destruct fs; reflexivity|reflexivity].
 Qed.
 
 (* simulation relation between encoder state and decoder table (L = negotiated limit) *)
@@ -585,13 +593,15 @@ Lemma u32_lt : uint32_max < 2 ^ 32 /\ 2 ^ 32 < 2 ^ 62 /\ 0 <= uint32_max.
 Proof. unfold uint32_max. split; [lia|split; [apply Z.pow_lt_mono_r; lia|]]. assert (0 < 2 ^ 32) by (apply Z.pow_pos_nonneg; lia). lia. Qed.
 
 Lemma sim_updates L e t : 0 <= L <= uint32_max -> sim L e t ->
-  exists t1, Dec t (enc_updates e) [] t1 /\ tab_eq (edt e) t1 /\ tab_ok t1 /\ dallowed t1 = L /\ dmax t1 <= 2 ^ 32
+  forall ff, (epending e = true -> ff = true) ->
+  exists t1, Dec ff t (enc_updates e) [] ff t1 /\ tab_eq (edt e) t1 /\ tab_ok t1 /\ dallowed t1 = L /\ dmax t1 <= 2 ^ 32
              /\ tsum (ents t1) <= L.
 Proof.
-  intros HL [Hokt [Hoke [Hal [Hlim [HmL [Hbig [HtL [Hnp Hp]]]]]]]].
+  intros HL [Hokt [Hoke [Hal [Hlim [HmL [Hbig [HtL [Hnp Hp]]]]]]]] ff Hff.
   pose proof u32_lt as [Hu1 [Hu2 Hu3]].
   unfold enc_updates. destruct (epending e) eqn:Ep.
-  - destruct (Hp eq_refl) as [Hents [Hm0 Hdisj]]. clear Hnp Hp.
+  - rewrite (Hff eq_refl). clear Hff ff.
+    destruct (Hp eq_refl) as [Hents [Hm0 Hdisj]]. clear Hnp Hp.
     set (m := eminsize e) in *. set (M := dmax (edt e)) in *.
     assert (0 <= M) as HM0 by (destruct Hoke as [_ [H _]]; exact H).
     set (tM := fun (t0 : dyntab) v => mkDT (fit (ents t0) v) (tsum (fit (ents t0) v)) v (dallowed t0)).
@@ -609,7 +619,8 @@ Proof.
       * unfold tM. cbn [dmax]. lia.
       * unfold tM. cbn [ents]. pose proof (fit_le (fit (ents t) m) M HM0). lia.
     + exists (tM t M). split; [|split; [|split; [|split; [|split]]]].
-      * cbn [app]. change (@nil field) with (ocons None []). apply Dec_one; [apply or_first_nonnil|].
+      * cbn [app]. change (@nil field) with (ocons None []). change true with (next_first true None) at 2.
+        apply Dec_one; [apply or_first_nonnil|].
         intros rest. apply parse_size_update_ok; [exact Hokt|lia|lia].
       * unfold tab_eq, tM. cbn [ents dmax]. rewrite Hents. replace (Z.min m M) with M by lia. split; reflexivity.
       * apply tab_ok_set_max. lia.
@@ -622,9 +633,10 @@ Qed.
 
 Strategy opaque [enc_field search_table search_list].
 Lemma sim_write L e t f e' b : 0 <= L <= uint32_max -> sim L e t -> wf_f f ->
-  enc_write e f = Some (e', b) -> exists t', Dec t b [f] t' /\ sim L e' t'.
+  enc_write e f = Some (e', b) -> forall ff, (epending e = true -> ff = true) ->
+  exists t', Dec ff t b [f] false t' /\ sim L e' t' /\ epending e' = false.
 Proof.
-  intros HL Hsim Hwf Hw. destruct (sim_updates L e t HL Hsim) as [t1 [Hd1 [Heq1 [Hok1 [Hal1 [Hbig1 HtL1]]]]]].
+  intros HL Hsim Hwf Hw ff Hff. destruct (sim_updates L e t HL Hsim ff Hff) as [t1 [Hd1 [Heq1 [Hok1 [Hal1 [Hbig1 HtL1]]]]]].
   destruct Hsim as [Hokt [Hoke [Hal [Hlim [HmL [_ [_ [Hnp _]]]]]]]].
   unfold enc_write in Hw. destruct (enc_field (enc_clear e) f) as [[e2 body]|] eqn:Ef; [|discriminate].
   inversion Hw; subst e' b.
@@ -633,11 +645,12 @@ Proof.
   { unfold enc_clear. destruct (epending e) eqn:Ep; [left; cbn; auto|right; auto]. }
   assert (edt (enc_clear e) = edt e /\ elimit (enc_clear e) = elimit e /\ epending (enc_clear e) = false) as [Hc1 [Hc2 Hc3]].
   { destruct Hc as [[H1 [H2 [H3 _]]]|[H1 H2]]; [auto|rewrite H2; auto]. }
-  destruct (field_roundtrip hd Hhd (enc_clear e) f e2 body t1 Hwf Hok1 ltac:(rewrite Hc1; exact Hoke)
+  destruct (field_roundtrip hd Hhd ff (enc_clear e) f e2 body t1 Hwf Hok1 ltac:(rewrite Hc1; exact Hoke)
               ltac:(rewrite Hc1; exact Heq1) Hbig1 Ef) as [Hnn [t' [Hp [Hteq [Hokt' [Hoke' [Hal' [Hmx' [Hmin' [Hlim' Hpen']]]]]]]]]].
   exists t'. split.
-  - change [f] with ([] ++ ocons (Some f) []). eapply Dec_app; [exact Hd1|]. apply Dec_one; assumption.
-  - unfold sim. destruct Hteq as [Hte Htm]. destruct Heq1 as [_ Hm1].
+  - change [f] with ([] ++ ocons (Some f) []). eapply Dec_app; [exact Hd1|].
+    change false with (next_first ff (Some f)). apply Dec_one; assumption.
+  - split; [|rewrite Hpen'; exact Hc3]. unfold sim. destruct Hteq as [Hte Htm]. destruct Heq1 as [_ Hm1].
     split; [exact Hokt'|split; [exact Hoke'|split; [congruence|split; [congruence|]]]].
     split; [rewrite Htm, Hmx', <- Hm1; exact HmL|].
     split; [rewrite Hmx'; exact Hbig1|].
